@@ -681,6 +681,189 @@ fn block_comment(b: &mut B, rng: &mut Rng, l: &CL, indent: &str) {
     }
 }
 
+
+// ------------------------------------------------------------------------------------------
+// doc comments with block tags and inline tags (JavaDoc: java; JSDoc: the four JS/TS ids)
+// ------------------------------------------------------------------------------------------
+//
+// What the real parsers intend to mask (read from javadoc.rs / jsdoc.rs), and what is recorded:
+//  * both: an inline tag `{@word … }` is Unlintable from `{` to `}`            → NonProse;
+//  * JavaDoc: a block tag `@tag` and its ONE-WORD argument (`At Word Space Word`, anywhere in the
+//    comment, the last four tokens included) are Unlintable                      → NonProse,
+//    the description after the argument is linted                               → Prose;
+//  * JSDoc: on a line, everything from the first `@word` to the end of the line is Unlintable:
+//    `@tag {type} name` → NonProse, the description on that line is not judged (the code masks
+//    it on purpose: test `handles_class`), a continuation on the next line is linted → Prose;
+//  * an unterminated `{@link Foo`: the `{` stays punctuation (Delim), `@link Foo` is masked by
+//    the block-tag rule (NonProse); in JSDoc the rest of the line is not judged.
+
+const JAVADOC_TAGS: &[(&str, &[&str])] = &[
+    ("@param", &["zqxü", "fóo", "zqarg"]),
+    ("@throws", &["IOException", "Zqerror"]),
+    ("@see", &["Reader", "Zqtype"]),
+    ("@exception", &["IOException"]),
+    ("@author", &["Zqname"]),
+];
+const JSDOC_TAGS: &[&str] = &["@param {string} zqxü", "@param {number} fóo", "@returns {number}", "@see Reader", "@throws {Zqerror}", "@type {Object}", "@class Zqcircle"];
+
+fn inline_tag(b: &mut B, rng: &mut Rng) {
+    let c = match rng.below(4) {
+        0 => format!("{{@code {}}}", rng.pick(&["x", "fóo()", "zq + 1"])),
+        1 => format!("{{@link {}}}", rng.pick(&["Fóo", "Bär#baz", "Zqx"])),
+        2 => "{@link Zqx the label}".to_string(),
+        _ => "{@linkplain Zqx}".to_string(),
+    };
+    b.zone(&c, ZK::NonProse, "inline-tag");
+    b.feat("inline-tag");
+}
+
+/// one content line of a doc comment (without leader); returns true if it may be followed by more
+/// content in the same comment (false after an unterminated inline tag in JavaDoc, where a later
+/// `}` would close it)
+fn doc_line(b: &mut B, rng: &mut Rng, l: &CL, allow_unterminated: bool) -> bool {
+    let java = l.inner == Inner::JavaDoc;
+    match rng.below(10) {
+        // block tag, with or without description
+        0 | 1 | 2 | 3 => {
+            if java {
+                let (tag, args) = *rng.pick(JAVADOC_TAGS);
+                let t = format!("{} {}", tag, rng.pick(args));
+                b.zone(&t, ZK::NonProse, "doc-tag");
+                if rng.chance(1, 2) {
+                    b.push(" ");
+                    let n = rng.range(1, 4);
+                    b.words(rng, n);
+                    b.feat("doc-tag+description");
+                } else {
+                    b.feat("doc-tag-bare");
+                }
+            } else {
+                let t = *rng.pick(JSDOC_TAGS);
+                b.zone(t, ZK::NonProse, "doc-tag");
+                if rng.chance(1, 2) {
+                    // masked on purpose by JsDoc: not judged
+                    b.push(" ");
+                    b.push(*rng.pick(WORDS));
+                    b.push(" ");
+                    b.push(*rng.pick(WORDS));
+                    b.feat("doc-tag+description");
+                } else {
+                    b.feat("doc-tag-bare");
+                }
+            }
+            true
+        }
+        // inline tag at the start / in the middle / at the end of a prose line
+        4 | 5 | 6 => {
+            match rng.below(4) {
+                0 => {
+                    inline_tag(b, rng);
+                    b.push(" ");
+                    let n = rng.range(1, 4);
+                    b.words(rng, n);
+                    b.feat("inline-tag-at-start");
+                }
+                1 => {
+                    let n = rng.range(1, 3);
+                    b.words(rng, n);
+                    b.push(" ");
+                    inline_tag(b, rng);
+                    b.push(" ");
+                    let n = rng.range(1, 3);
+                    b.words(rng, n);
+                    b.feat("inline-tag-in-middle");
+                }
+                2 => {
+                    let n = rng.range(1, 4);
+                    b.words(rng, n);
+                    b.push(" ");
+                    inline_tag(b, rng);
+                    b.feat("inline-tag-at-end");
+                }
+                _ => {
+                    inline_tag(b, rng);
+                    b.feat("inline-tag-alone");
+                }
+            }
+            true
+        }
+        // unterminated inline tag at the end of the line
+        7 if allow_unterminated => {
+            let n = rng.range(1, 3);
+            b.words(rng, n);
+            b.push(" ");
+            b.zone("{", ZK::Delim, "unterminated-inline-open");
+            b.zone(*rng.pick(&["@link Zqx", "@code zqy", "@link Fóo"]), ZK::NonProse, "unterminated-inline-tag");
+            if !java && rng.chance(1, 2) {
+                // JSDoc masks the rest of the line: not judged
+                b.push(" ");
+                b.push(*rng.pick(WORDS));
+            }
+            b.feat("unterminated-inline-tag");
+            !java
+        }
+        _ => {
+            let n = rng.range(1, 5);
+            b.words(rng, n);
+            true
+        }
+    }
+}
+
+/// a `/** … */` doc comment; always followed by a declaration (so the comment is not merged with
+/// a following one and its last tokens really are the last tokens the parser sees)
+fn doc_comment(b: &mut B, rng: &mut Rng, l: &CL, indent: &str) {
+    b.push(indent);
+    b.zone("/**", ZK::Delim, "block-opener");
+    match rng.below(5) {
+        // single line: `/** @see Reader */`
+        0 | 1 => {
+            b.push(" ");
+            doc_line(b, rng, l, true);
+            b.push(" ");
+            b.zone("*/", ZK::Delim, "block-closer");
+            b.feat("doc-single-line");
+        }
+        _ => {
+            let mut more = true;
+            // content on the opener line?
+            if rng.chance(1, 3) {
+                b.push(" ");
+                more = doc_line(b, rng, l, false);
+                b.feat("doc-content-on-opener-line");
+            }
+            let n = rng.range(1, 4);
+            for i in 0..n {
+                if !more {
+                    break;
+                }
+                b.nl();
+                b.push(indent);
+                b.push(" ");
+                b.zone("*", ZK::Delim, "block-leader");
+                b.push(" ");
+                // (an unterminated inline tag only as the very last content of the comment)
+                more = doc_line(b, rng, l, i + 1 == n);
+            }
+            if rng.chance(1, 4) {
+                // closer on the last content line
+                b.push(" ");
+                b.zone("*/", ZK::Delim, "block-closer");
+                b.feat("doc-closer-on-last-line");
+            } else {
+                b.nl();
+                b.push(indent);
+                b.push(" ");
+                b.zone("*/", ZK::Delim, "block-closer");
+            }
+            b.feat("doc-multi-line");
+        }
+    }
+    b.nl();
+    code_line(b, rng, l, indent);
+    b.feat("doc-comment");
+}
+
 fn ignored_comment(b: &mut B, rng: &mut Rng, l: &CL, indent: &str, markers: &[String]) {
     let m = rng.pick(markers).clone();
     let a = b.n;
@@ -791,13 +974,44 @@ pub fn gen_comment_file(rng: &mut Rng, l: &CL, markers: &[String]) -> B {
                 b.nl();
                 last_was_comment = false;
             }
-            7 if l.inner == Inner::Go => {
-                // a `//go:` directive: the directive itself is not prose; fenced by code
+            7 | 8 if l.inner == Inner::JsDoc || l.inner == Inner::JavaDoc => {
+                doc_comment(&mut b, rng, l, &indent);
+                b.nl();
+                last_was_comment = false;
+            }
+            7 | 8 if l.inner == Inner::Go => {
+                // A comment block that begins with a `//go:` directive yields no tokens: the
+                // directive line is recorded as Ignored. The code means to skip the directive and
+                // lint the rest of the block, but (double offset in `try_get_content`) returns
+                // nothing: the rest of the block is NOT judged. Fenced by code.
                 if last_was_comment {
                     code_line(&mut b, rng, l, "");
                     b.nl();
                 }
-                b.zone("//go:generate zqtool -x wörd", ZK::NonProse, "go-directive");
+                let d = *rng.pick(&["//go:generate zqtool -x wörd", "//go:build linux && amd64", "//go:embed zqfile.txt", "//go:noinline"]);
+                b.zone(d, ZK::Ignored, "go-directive");
+                match rng.below(6) {
+                    0 | 1 => {
+                        // more lines in the same block: not judged
+                        let n = rng.range(1, 2);
+                        for _ in 0..n {
+                            b.nl();
+                            b.push("// ");
+                            b.push(*rng.pick(WORDS));
+                            b.push(" ");
+                            b.push(*rng.pick(WORDS));
+                        }
+                        b.feat("go-directive-block");
+                    }
+                    2 if rng.chance(1, 3) => {
+                        // recorded finding: an empty comment line after the directive makes
+                        // `Span::len` underflow (panic with overflow checks on)
+                        b.nl();
+                        b.push("//");
+                        b.taint("go-directive-empty-tail");
+                    }
+                    _ => {}
+                }
                 b.nl();
                 code_line(&mut b, rng, l, "");
                 b.nl();
